@@ -99,10 +99,11 @@ CHECKS["C19"] = {
             "Part realudp: every request sequence (depth 3 quick / 4 thorough) of {Binding, Allocate, the same Allocate retransmitted, Refresh 0, CreatePermission} over three clients against the real server on "
             "kernel loopback sockets (*net.UDPConn): answer only at the requester, mapped address = the socket's, relayed address unique and really reachable (sweep), retransmission gets identical attributes; "
             "strictly sequential, unexpected arrivals are violations at once, missing ones after three 5 s probes, unanswered fence => inconclusive. "
-            "Part sched (Engine B): an Allocate retransmitted while the first copy is still inside a slow relay-address generator creates nothing (one allocation, one relay socket, one relayed address answered), all interleavings up to the preemption bound. Over a stream listener, a Binding request of a second connection served while the first connection's Allocate sits in a slow, then failing generator: the 508 still carries the transaction id of the Allocate. "
+            "Part lost-response: the write of the Allocate success response fails once (ENOBUFS) for {plain, EVEN-PORT, LIFETIME 1200}: retransmissions 1..3 get the same success, nothing is created, another Allocate gets 437. Part sched (Engine B): an Allocate retransmitted while the first copy is still inside a slow relay-address generator creates nothing (one allocation, one relay socket, one relayed address answered), all interleavings up to the preemption bound. Over a stream listener, a Binding request of a second connection served while the first connection's Allocate sits in a slow, then failing generator: the 508 still carries the transaction id of the Allocate. "
             "A class is (world, form, state) -> (class, code).",
     "parts": [A("vtx", "./checks/c19", "TestC19", budget={"quick": 90, "thorough": 1500}),
               A("realudp", "./checks/c19", "TestC19RealUDP", budget={"quick": 120, "thorough": 1500}),
+              A("lost-response", "./checks/c19", "TestC19LostResponse", budget={"quick": 30, "thorough": 30}),
               A("sched", "./checks/bsem", "TestC19Sched", overlay=True, gomaxprocs=1, budget={"quick": 90, "thorough": 900})],
 }
 
